@@ -110,7 +110,16 @@ func runC01(c *Ctx) {
 	}
 	count := 0
 	nRFC := 0
+	nOpaque := 0
 	one := func(x *xcase) {
+		if (x.api == "readfrom" || x.api == "readfromc") && x.src == "opaque" {
+			// every other length-less source hands over its last bytes together with io.EOF (decompressors do): they count
+			x.dataEOF = nOpaque%2 == 1
+			nOpaque++
+			if x.dataEOF {
+				c.Stat("readfrom_sources_with_data_and_eof_together")
+			}
+		}
 		if x.api == "readfromc" {
 			// the concurrency argument itself, or one of the values documented to mean "the client's maximum"
 			x.rfc = nRFC % 4
